@@ -84,9 +84,9 @@ func coinDomain(denom string, amt int64) (quick, more []lv[sdk.Coin]) {
 		{"malformed-denom", sdk.Coin{Denom: "1 bad!", Amount: sdkmath.NewInt(amt)}},
 		{"negative", negCoin(denom, -1)},
 		{"2^128", sdk.Coin{Denom: denom, Amount: mc.Big(128)}},
+		{"2^255", sdk.Coin{Denom: denom, Amount: mc.Big(255)}},
 	}
 	more = []lv[sdk.Coin]{
-		{"2^255", sdk.Coin{Denom: denom, Amount: mc.Big(255)}},
 		{"nil-amount", sdk.Coin{Denom: denom}},
 		{"other-existing-denom", sdk.Coin{Denom: "btc", Amount: sdkmath.NewInt(amt)}},
 	}
